@@ -428,6 +428,12 @@ func optStr(k int) string {
 }
 
 func oneCase(t *tr.W, r *rand.Rand, forceKind string) {
+	// "focus" cases: an honest file from height 0 that extends level stores in
+	// several batches, with a write failure injected into one of them
+	focus := forceKind == "" && r.Intn(7) == 0
+	if focus {
+		forceKind = "honest"
+	}
 	w, err := newWorld()
 	if err != nil {
 		panic(err)
@@ -439,7 +445,11 @@ func oneCase(t *tr.W, r *rand.Rand, forceKind string) {
 	bTip := pick(r, 0, 0, 1, 2, 3, 4, 5, 6, 8)
 	fTip := bTip
 	rollback := 0
-	switch r.Intn(10) {
+	preKind := r.Intn(10)
+	if focus {
+		preKind = 9
+	}
+	switch preKind {
 	case 0, 1: // block store ahead
 		d := 1 + r.Intn(3)
 		if bTip >= d {
@@ -517,7 +527,13 @@ func oneCase(t *tr.W, r *rand.Rand, forceKind string) {
 	if kind == "gap" {
 		s = eff + 2 + r.Intn(3)
 	}
+	if focus {
+		s = 0
+	}
 	length := pick(r, 1, 2, 3, 4, 5, 7, 9, 12)
+	if focus {
+		length = eff + 1 + pick(r, 2, 3, 4, 5, 7)
+	}
 	if r.Intn(3) > 0 && s+length-1 <= eff {
 		length = eff - s + 1 + 1 + r.Intn(6) // make it extend the stores most of the time
 	}
@@ -627,6 +643,16 @@ func oneCase(t *tr.W, r *rand.Rand, forceKind string) {
 	case 1:
 		failB = r.Intn(3)
 	}
+	if focus {
+		bs = pick(r, 1, 2, 3)
+		failB, failF = -1, -1
+		if r.Intn(3) == 0 {
+			failB = r.Intn(2)
+		} else {
+			failF = r.Intn(2)
+		}
+		t.Hit("focus")
+	}
 	bp, fp, err := spec.write(w.dir)
 	if err != nil {
 		panic(err)
@@ -677,11 +703,15 @@ func oneCase(t *tr.W, r *rand.Rand, forceKind string) {
 
 func Run(t *tr.W, thorough bool) {
 	r := tr.Rng(14)
-	n := 260
+	n := 220
 	if thorough {
-		n = 6000
+		n = 5000
 	}
 	n *= tr.EnvInt("VERIF_BUDGET", 1)
+	if os.Getenv("VERIF_SEARCH") == "1" {
+		// bin/check's search for a failing input after a broken tie: bounded (each case costs ~60 ms of disk I/O)
+		n = 1500
+	}
 	for i := 0; i < n; i++ {
 		oneCase(t, r, "")
 	}
